@@ -9,6 +9,7 @@ mod optval;
 mod registry;
 #[cfg(feature = "std")]
 mod server;
+#[cfg(feature = "std")]
 mod splice;
 mod util;
 mod views;
@@ -31,6 +32,7 @@ fn main() {
         ("replay", "registry") => registry::replay_registry(&args),
         #[cfg(feature = "std")]
         ("replay", "blockvalue") => blockval::replay_blockvalue(&args),
+        #[cfg(feature = "std")]
         ("replay", "splice") => splice::replay_splice(&args),
         ("replay", "codetext") => registry::replay_codetext(&args),
         ("replay", "optval") => optval::replay_optval(&args),
